@@ -1,5 +1,5 @@
-From Coq Require Import List Arith Bool Lia.
-From Wire Require Import Sets Acyclic Solve Model.
+From Coq Require Import List Arith Bool Lia String.
+From Wire Require Import Sets Acyclic Solve Names Front Exec Model Emit.
 Import ListNotations.
 
 (* Bridging lemmas: the concrete model (Model.v) is defined through the proved cores, so their
@@ -110,4 +110,45 @@ Proof.
   destruct (process_list _ _ _ _ _) as [ms es].
   destruct (es ++ _) as [|e0 es1] eqn:Ee; [|discriminate].
   apply app_eq_nil in Ee. tauto.
+Qed.
+
+(* ---------------- emission ---------------- *)
+(* C01: one generated function per template, carrying the template's name; its parameter list has one entry
+   per template parameter *)
+Lemma emit_params_length E : forall ps v ig g acc out ig' g',
+  emit_params E ps v ig g acc = (out, ig', g') ->
+  List.length out = List.length acc + List.length ps /\ List.length (ig_params ig') = List.length (ig_params ig) + List.length ps.
+Proof.
+  induction ps as [|[n t] r IH]; intros v ig g acc out ig' g' H; cbn [emit_params] in H.
+  - inversion H; subst. cbn. lia.
+  - destruct r as [|p2 r2].
+    + destruct v as [el|].
+      * destruct (type_string E tdepth g el) as [s g1]. inversion H; subst. unfold snoc. cbn.
+        rewrite !app_length. cbn. lia.
+      * destruct (type_string E tdepth g t) as [s g1]. cbn [emit_params] in H. inversion H; subst.
+        unfold snoc. cbn. rewrite !app_length. cbn. lia.
+    + assert (Hgen : forall X Y, (let '(s, g1) := type_string E tdepth g t in
+               emit_params E (p2 :: r2) v X g1 (snoc acc (Y s))) = (out, ig', g') ->
+               exists s g1, emit_params E (p2 :: r2) v X g1 (snoc acc (Y s)) = (out, ig', g')).
+      { intros X Y H0. destruct (type_string E tdepth g t) as [s g1]. eauto. }
+      destruct v as [el|].
+      * apply Hgen in H. destruct H as (s & g1 & H). apply IH in H. unfold snoc in H. cbn in H.
+        rewrite !app_length in H. cbn in H. cbn. lia.
+      * apply Hgen in H. destruct H as (s & g1 & H). apply IH in H. unfold snoc in H. cbn in H.
+        rewrite !app_length in H. cbn in H. cbn. lia.
+Qed.
+
+Theorem inject_pass_header E inj cs g :
+  exists params results body g',
+    inject_pass E inj cs g = (String.append "SIG " (String.append (i_name inj) (String.append "(" (String.append (join ", " params) (String.append ") -> " (join ", " results))))) :: body, g') /\
+    List.length params = List.length (i_params inj) /\
+    List.length results = 1 + (if i_cleanup inj then 1 else 0) + (if i_err inj then 1 else 0).
+Proof.
+  unfold inject_pass.
+  destruct (emit_params E (i_params inj) (i_variadic inj) _ g []) as [[ps ig1] g1] eqn:Ep.
+  destruct (type_string E tdepth g1 (i_out inj)) as [outs g2].
+  destruct (emit_calls E inj cs _ ig1 g2 []) as [[body ig2] g3].
+  apply emit_params_length in Ep. destruct Ep as [Hl _]. cbn in Hl.
+  eexists ps, _, _, _. split; [reflexivity|]. split; auto.
+  unfold lapp. destruct (i_cleanup inj), (i_err inj); reflexivity.
 Qed.
